@@ -350,6 +350,28 @@ func eval(cs Case, x *fw.Rec) {
 			x.Fail(cls("a malformed document is not reported as severe: "+j.name), "", detail())
 		}
 	}
+	// "each ... document appears in Errors()": the same malformed document lying in two places is two documents
+	if !cs.Stop && cs.Command != "diff-both" {
+		copies := map[int]int{}
+		for _, ji := range cs.Junk {
+			copies[ji]++
+		}
+		for ji, n := range copies {
+			j := junks[ji]
+			if n < 2 || !j.severe || !j.document {
+				continue
+			}
+			named := 0
+			for _, e := range got.errs {
+				if (e.severe || e.fatal) && strings.Contains(e.text, j.marker) {
+					named++
+				}
+			}
+			if named > 0 && named < n {
+				x.Fail(cls("a malformed document present twice is reported once: "+j.name), "", detail())
+			}
+		}
+	}
 	if !expectSevere && hasSevere {
 		x.Fail(cls("severe entry although every injected document is merely irrelevant"), "", detail())
 	}
